@@ -121,6 +121,14 @@ fn state_lattice_for(spec: &Spec) -> Vec<V> {
             v.push(V::So3([0.0, 0.0, 0.0, 2.0])); // non-unit
             v.push(V::So3([3.0, 0.0, 4.0, 0.0]));
             v.push(V::So3([1e-10, 0.0, 0.0, 0.0]));
+            // almost-unit quaternions (a unit one read back through single precision, drifted by an integration step):
+            // the enforced state is a unit quaternion all the same
+            for eps in [1e-3, 1e-5, -1e-5, 3e-6, 1e-8, -1e-8, 1e-10, 1e-13] {
+                let m = 1.0 + eps;
+                v.push(V::So3([0.6 * m, 0.0, 0.8 * m, 0.0]));
+                v.push(V::So3([0.5 * m, -0.5 * m, 0.5 * m, 0.5 * m]));
+                v.push(V::So3([0.0, 0.0, 0.0, m]));
+            }
             // one direction at every other decimal order of magnitude a double has (squares that underflow, are
             // subnormal, overflow): enforce_bounds normalises first, whatever the length
             for e in (-322..=306).step_by(2) {
